@@ -61,7 +61,7 @@ PROPS = {
               "v.createVA": ["tr", "cnt"], "v.q.summary": "*"},
              exact_ops=["v.q.summary", "v.split", "v.move", "v.moveDenoms", "v.send"]),
     "C18": P(["C4E.Props.C18"], ["C4E.Props.C18"],
-             [("minter", 150, 2000), ("distr", 150, 2000), ("vest", 200, 3000)],
+             [("minter", 150, 2000), ("distr", 150, 2000), ("vest", 200, 3000), ("split", 60, 800)],
              {"m.block": ["amt", "ev"], "d.bb": ["ev"], "v.withdraw": ["paid", "ev"], "v.send": ["ev"]},
              exact_ops=["m.block", "d.bb", "v.withdraw"]),
     "C19": P(["C4E.Props.C19"], ["C4E.Props.C19"],
